@@ -28,4 +28,8 @@ CHECKS["C03"] = dict(
    text="Held on every public call of the workload (every thermodynamic class and geometry wrapper with random admissible parameters, unequal-gamma and JWL Riemann problems in all patterns, three piston models/regions, black-box Noh with each admissible EOS, radiative-shock profiles on their nodes): the declared EOS relation evaluated by an icontract postcondition on ExactSolver.__call__. Sampling, not proof.",
    design_ref="5/C03", note=_T + "; relation table written from the docstrings; resolution-based slack for interpolating solvers computed from the solver's own tables",
    technique="online contract (icontract postcondition) at the public call boundary")
+CHECKS["C05"] = dict(
+   text="Held on every public solver class found by walking exactpack.solvers (each built with random admissible parameters, N in {1,2,3,17,1000}, five container types, permuted/duplicated points): record count/order, positions first and unmodified, caller's array untouched, standard names, container equivalence, exact CSV round trip, ValueError for unknown/missing constructor parameters. Exact comparisons; the universal part is an icontract postcondition on ExactSolver.__call__. Sampling over inputs, exhaustive over classes.",
+   design_ref="5/C05", note=_T + "; alias list for standard names in rtm/props/c05.py; plotting is not exercised",
+   technique="online contract (icontract postcondition) at the public call boundary + differential container driver")
 NOT_YET = {}
